@@ -757,6 +757,15 @@ func (c *Connection) write(ctx context.Context, msg Message) error {
 		if req, ok := msg.(*Request); ok && !req.IsCall() && s.outgoingNotifications > 0 {
 			return
 		}
+		// Responses are still written during a graceful shutdown: Close waits
+		// for the in-flight handlers, and the peer is waiting for their results
+		// (and for the ErrServerClosing rejections documented on Close). If both
+		// ends refuse them, two sessions closing at the same time with calls in
+		// both directions wait for each other for ever. Only a Writer that is
+		// known to be broken makes writing a response pointless.
+		if _, ok := msg.(*Response); ok && s.writeErr == nil {
+			return
+		}
 		err = s.shuttingDown(ErrServerClosing)
 	})
 	if err != nil {
